@@ -92,9 +92,9 @@ def history_obs(mname, length, timeout):
     nvals = n_init + length
 
     def in_range(v):
-        return isinstance(v, bool) or -9 <= v <= 99
+        return isinstance(v, bool) or -9 <= v <= 9
     for first in range(nops):
-        params = [(f'o{i + 2}', int) for i in range(nrest)] + [(f'v{i}', VT) for i in range(n_init)] + [(f'w{i + 1}', VT) for i in range(length)] + [('two', bool)]
+        params = [(f'o{i + 2}', int) for i in range(nrest)] + [(f'v{i}', int) for i in range(n_init)] + [(f'w{i + 1}', VT) for i in range(length)] + [('two', bool)]
 
         def mk_body(first):
             def body(*a):
@@ -107,6 +107,8 @@ def history_obs(mname, length, timeout):
                 if not (0 <= r < nops):
                     return False
             if typed:
+                if a[-1]:
+                    return False          # the typed model is run with one evaluator only (path budget)
                 for v in a[nrest:-1]:
                     if not in_range(v):
                         return False
@@ -126,14 +128,14 @@ def history_obs(mname, length, timeout):
                     out.append(f'evaluate {sp}')
             return '; '.join(out)
         last_eval = max(i for i, o in enumerate(ops) if o[0] == 'eval')
-        wit = [tuple([last_eval] * nrest) + tuple(range(3, 3 + nvals)) + (False,), tuple([0] * (nrest - 1) + [last_eval]) + tuple(range(-2, -2 + nvals)) + (True,)]
+        wit = [tuple([last_eval] * nrest) + tuple(range(3, 3 + nvals)) + (False,), tuple([0] * (nrest - 1) + [last_eval]) + tuple(range(-2, -2 + nvals)) + (not typed,)]
         if typed:
             wit.append(tuple([last_eval, 0][:nrest] + [last_eval] * max(0, nrest - 2)) + (1,) + tuple([True] * length) + (False,))
         obs.append(Ob(f'c04.history[{mname},len {length},first {ops[first][0]} {ops[first][2]}]', h, pre=pre, witness=wit, timeout=timeout,
                       cost=(nops ** nrest) / 12 * (3 if typed else 1), family=f'c04.history.{mname}',
                       bounds=f'model {mname}: all histories of length {length} over {nops} operations (set of each input, also through its defined name; '
                              f'evaluate of each formula cell, also through its defined name), first operation fixed, the others by forking ({nops ** nrest} histories), sets through the same or through a second evaluator over the same model (forked); '
-                             + ('initial inputs and every written value: int in -9..99 or bool (type forked); type-sensitive dependants ISNUMBER / & / IF' if typed else
+                             + ('initial inputs and every written value: int in -9..9 or bool (type forked); type-sensitive dependants ISNUMBER / & / IF' if typed else
                                 'initial inputs and every written value: all ints')
                              + (f'; the cells {absent} do not exist in the model until a history sets them' if absent else ''),
                       show=show))
@@ -144,5 +146,5 @@ def build(tier, seed):
     thorough = tier == 'thorough'
     obs = []
     for mname in MODELS:
-        obs += history_obs(mname, 4 if thorough else 3, 900 if thorough else 300)
+        obs += history_obs(mname, 4 if thorough else 3, 1800 if thorough else 900)
     return obs
